@@ -8,6 +8,7 @@ package main
 //
 // <type> = base min max   (min / max: decimal or _ )
 // <expr> = c <int> | v <name> <type> | u <op> e | b <op> l r | as <type> e | a <op> <n> e*n
+//        | ix <array> <len> <elem-type> e     (element of a local / this.field array of scalars)
 //
 // Expressions / facts outside the scalar fragment are not serialised (a fact
 // with a sub-term outside the fragment can never match an in-fragment
@@ -105,6 +106,35 @@ func exprSexpr(tm *t.Map, n *a.Expr, nodes *[]*a.Expr) (string, bool) {
 			return "v this." + id.Str(tm) + " " + ts, true
 		}
 		return "", false
+	case op == t.IDOpenBracket:
+		// element of a fixed-length array of scalars: a local or this.field. The
+		// array operand itself is not a node of the model.
+		arr := n.LHS().AsExpr()
+		aTyp := arr.MType()
+		if aTyp == nil || !aTyp.IsEitherArrayType() {
+			return "", false
+		}
+		cv := aTyp.ArrayLength().ConstValue()
+		if cv == nil || !cv.IsInt64() || cv.Sign() < 0 {
+			return "", false
+		}
+		ets, ok := typeSexpr(tm, aTyp.Inner())
+		if !ok || aTyp.Inner().IsIdeal() {
+			return "", false
+		}
+		name := ""
+		if arr.Operator() == 0 && arr.ConstValue() == nil {
+			name = arr.Ident().Str(tm)
+		} else if id := arr.IsThisDotFoo(); id != 0 {
+			name = "this." + id.Str(tm)
+		} else {
+			return "", false
+		}
+		e, ok := exprSexpr(tm, n.RHS().AsExpr(), nodes)
+		if !ok {
+			return "", false
+		}
+		return "ix " + name + " " + cv.String() + " " + ets + " " + e, true
 	case op.IsXUnaryOp():
 		e, ok := exprSexpr(tm, n.RHS().AsExpr(), nodes)
 		if !ok {
@@ -158,6 +188,17 @@ func factsSexpr(tm *t.Map, facts []*a.Expr) string {
 	for _, f := range facts {
 		if op := f.Operator(); !op.IsXBinaryOp() || op == t.IDXBinaryAs {
 			continue
+		}
+		if f.ConstValue() != nil {
+			// a constant-valued comparison keeps its (constant) operands: the fact loops
+			// of proveBinaryOp / proveReasonRequirementForRHSLength look at them
+			if nm, ok := binOpNames[f.Operator()]; ok {
+				l, r := f.LHS().AsExpr(), f.RHS().AsExpr()
+				if l != nil && r != nil && l.ConstValue() != nil && r.ConstValue() != nil {
+					out = append(out, "b "+nm+" c "+l.ConstValue().String()+" c "+r.ConstValue().String())
+					continue
+				}
+			}
 		}
 		if s, ok := exprSexpr(tm, f, nil); ok {
 			out = append(out, s)
@@ -224,14 +265,17 @@ func corrOps(ck *Checked, in *Interp, res *ProgResult) (ops []opLine) {
 		if !ok || !haveAfter || lhs == nil || rhs == nil || !rhs.Effect().Pure() {
 			return
 		}
-		if lhs.Operator() != 0 && lhs.IsThisDotFoo() == 0 {
+		if lhs.Operator() != 0 && lhs.IsThisDotFoo() == 0 && lhs.Operator() != t.IDOpenBracket {
 			return
 		}
 		ls, ok1 := exprSexpr(tm, lhs, nil)
 		rs, ok2 := exprSexpr(tm, rhs, nil)
-		if !ok1 || !ok2 || !strings.HasPrefix(ls, "v ") {
+		if !ok1 || !ok2 || !(strings.HasPrefix(ls, "v ") || strings.HasPrefix(ls, "ix ")) {
 			res.Stats["corr:stmt-outside-fragment"]++
 			return
+		}
+		if strings.HasPrefix(ls, "ix ") {
+			res.Stats["corr:facts-ops-element-store"]++
 		}
 		op := ""
 		if n.Operator() == t.IDEq {
@@ -259,6 +303,9 @@ func corrOps(ck *Checked, in *Interp, res *ProgResult) (ops []opLine) {
 				n := o.AsAssign()
 				if n.Operator() == t.IDEq && n.LHS() != nil {
 					emitExpr(line, n.RHS())
+				}
+				if l := n.LHS(); l != nil && l.Operator() == t.IDOpenBracket {
+					emitExpr(line, l) // the index obligations of the store target
 				}
 				var after []*a.Expr
 				haveAfter := false
